@@ -85,6 +85,10 @@ pub fn explore<S: Sys>(
         if nodes.len() > max_states || transitions > max_transitions {
             break;
         }
+        // the verdict is already "violated": no need to finish the exploration of a broken tree
+        if rep.own_violations(&cfg.prop) >= 20 {
+            break;
+        }
         depth += 1;
         // process the frontier in parallel
         let chunk = (frontier.len() + threads - 1) / threads;
